@@ -1,5 +1,5 @@
 (** Model of the scalar aggregates of /repo/uda (commit compared: HEAD of the task tree):
-      uda/datatypes.go:11-79   ColumnToFloat32 / ColumnToFloat64
+      uda/uda.go:11-79         ColumnToFloat32 / ColumnToFloat64
       uda/count/count.go:46-69 Count.Accum / Output
       uda/min/min.go:41-90     Min.Accum / Output        uda/max/max.go:41-88  Max.Accum / Output
       uda/avg/avg.go:41-80     Avg.Accum / Output
@@ -26,7 +26,7 @@ Inductive col :=
 | COther (n : nat)             (* any other element type (int16, uint8, uint16, uint32, uint64, byte, bool …), n values *)
 | CMissing.                    (* GetColumn returned nil *)
 
-(** uda/datatypes.go:11 *)
+(** uda/uda.go:11 *)
 Definition column_to_f32 (c : col) : Res (list f32) :=
   match c with
   | CMissing => Rejected
@@ -36,7 +36,7 @@ Definition column_to_f32 (c : col) : Res (list f32) :=
   | COther _ => Ok []
   end.
 
-(** uda/datatypes.go:47 *)
+(** uda/uda.go:46 *)
 Definition column_to_f64 (c : col) : Res (list f64) :=
   match c with
   | CMissing => Rejected
